@@ -45,7 +45,7 @@ ID = 'C13'
 LEVEL = 'exploration'
 ISOLATE = True
 BUDGET = {'quick': (4, 500), 'thorough': (16, 1500)}
-RULE = ('target cases: class shape or callable kind (31 kinds, generated as source text and '
+RULE = ('target cases: class shape or callable kind (35 kinds, generated as source text and '
         'exec\'ed in real modules) x API (configurable/register/external_configurable) x '
         'decorator form (bare, call, name, name+module, module, dotted name, dotted name+module) '
         'x scope ("" / s / s/t) x Hypothesis-generated signature (0-2 positional, 0-2 defaulted, '
@@ -151,6 +151,13 @@ KINDS = {
     'abc_abstract': (True, 'full', True, False),
     'sub_of_configurable': (True, 'full', True, False),
     'sub_of_external': (True, 'full', True, False),
+    # NO registered method of its own: the class merely stores, under the function's own name, a
+    # Gin-registered helper of the same module whose __qualname__ is dotted because it was
+    # defined elsewhere (static helper of another class, closure) -> exact type and pickling
+    'helper_static': (True, 'full', True, False),
+    'helper_attr': (True, 'full', True, False),
+    'helper_closure': (True, 'full', True, False),
+    'helper_dataclass': (True, 'dc', True, False),
     'reg_method': (True, 'full', True, True),
     'cfg_method': (True, 'full', True, True),
     'builtin_dict': (True, 'varkw', True, False),
@@ -307,6 +314,26 @@ def build_source(kind, sig, doc, tag=False):
   elif kind == 'sub_of_external':
     body = (f'class _P0:\n{init}\nParent = gin.external_configurable(_P0, "ExtParent")\n\n'
             f'class K(Parent):\n{d}  TAG = 1\n')
+  elif kind in ('helper_static', 'helper_attr', 'helper_closure', 'helper_dataclass'):
+    helpers = ('class Helpers:\n  @staticmethod\n  @gin.register\n'
+               "  def relu(x=0, leak='dflt:leak'):\n    return (x, leak)\n\n")
+    if kind == 'helper_closure':
+      helpers = ("def _make_helper():\n  @gin.register\n"
+                 "  def relu(x=0, leak='dflt:leak'):\n    return (x, leak)\n  return relu\n\n"
+                 'relu = _make_helper()\n\n')
+    if kind == 'helper_dataclass':
+      lines = [f'  {x}: object\n' for x in pos] + [f"  {x}: object = 'dflt:{x}'\n" for x in dflt]
+      lines += ['  relu: object = Helpers.relu\n']
+      lines += [f'  {x}: object = dataclasses.field(kw_only=True)\n' for x in kwo]
+      lines += [f"  {x}: object = dataclasses.field(default='dflt:{x}', kw_only=True)\n"
+                for x in kwod]
+      body = f"{helpers}@dataclasses.dataclass\nclass K:\n{d}{''.join(lines)}"
+      rec_attr = ('def _rec(x):\n  return {f.name: getattr(x, f.name) '
+                  "for f in dataclasses.fields(x) if f.name != 'relu'}\n")
+    else:
+      attr = {'helper_static': 'staticmethod(Helpers.relu)', 'helper_attr': 'Helpers.relu',
+              'helper_closure': 'relu'}[kind]
+      body = f'{helpers}class K:\n{d}  relu = {attr}\n{init}'
   elif kind in ('reg_method', 'cfg_method'):
     deco = '@gin.register' if kind == 'reg_method' else '@gin.configurable'
     body = (f"class K:\n{d}{init}  {deco}\n  def meth(self, q='dflt:q'):\n    return q\n")
